@@ -390,4 +390,132 @@ theorem factor_entries (h : n ≤ m) (A : Mat ℝ m n) (i : Fin m) (j : Fin n) :
 
 end Factor
 
+/-! ## the pivot vector is a permutation and `pivsign` is its sign -/
+section Perm
+variable {m n : Nat}
+
+/-- the pivot vector is (the graph of) a permutation `σ` of the row numbers, and `pivsign = sign σ` -/
+def PermInv (s : State ℝ m n) : Prop :=
+  ∃ σ : Equiv.Perm (Fin m), (∀ i : Fin m, s.piv[i.val]'i.isLt = σ i) ∧ s.pivsign = ((Equiv.Perm.sign σ : ℤˣ) : ℤ)
+
+theorem permInv_init (A : Mat ℝ m n) : PermInv (init A) :=
+  ⟨1, by intro i; simp [init], by simp [init]⟩
+
+theorem permInv_exchange (s : State ℝ m n) (p kr : Fin m) (hs : PermInv s) : PermInv (exchange s p kr) := by
+  unfold exchange
+  by_cases hpk : p = kr
+  · simp [hpk]; exact hs
+  · simp only [ne_eq, hpk, not_false_eq_true, if_true]
+    obtain ⟨σ, h1, h2⟩ := hs
+    refine ⟨σ * Equiv.swap kr p, ?_, ?_⟩
+    · intro i
+      simp only [swapPiv, Vector.getElem_ofFn, Fin.eta, Equiv.Perm.coe_mul, Function.comp_apply,
+        Equiv.swap_apply_def, h1]
+      by_cases e1 : i = kr
+      · simp [e1]
+      · by_cases e2 : i = p
+        · subst e2; simp [hpk]
+        · simp [e1, e2]
+    · have hne : kr ≠ p := fun e => hpk e.symm
+      simp only [Equiv.Perm.sign_mul, Equiv.Perm.sign_swap hne, h2]
+      simp
+
+theorem permInv_step (h : n ≤ m) (s : State ℝ m n) (k : Fin n) (hs : PermInv s) : PermInv (step h s k) := by
+  unfold step
+  simp only
+  obtain ⟨σ, h1, h2⟩ := permInv_exchange s (findPivot s.lu k (k.castLE h)) (k.castLE h) hs
+  exact ⟨σ, h1, h2⟩
+
+theorem permInv_factor (h : n ≤ m) (A : Mat ℝ m n) : PermInv (factor h A) := by
+  unfold factor
+  exact foldl_inv (fun _ s => PermInv s) n (step h) (init A) (permInv_init A)
+    (fun k t hk => permInv_step h t k hk)
+
+end Perm
+
+/-! ## bridge to Mathlib matrices, determinant -/
+section Bridge
+variable {m n : Nat}
+
+/-- the Mathlib matrix with the same entries -/
+def toMatrix (M : Mat ℝ m n) : Matrix (Fin m) (Fin n) ℝ := Matrix.of fun i j => M.get i j
+
+@[simp] theorem toMatrix_apply (M : Mat ℝ m n) (i : Fin m) (j : Fin n) : toMatrix M i j = M.get i j := rfl
+
+theorem toMatrix_matMul {k : Nat} (A : Mat ℝ m k) (B : Mat ℝ k n) :
+    toMatrix (matMul A B) = toMatrix A * toMatrix B := by
+  ext i j
+  simp [matMul, sumFin_eq, Matrix.mul_apply]
+
+theorem toMatrix_inj {A B : Mat ℝ m n} (h : toMatrix A = toMatrix B) : A = B :=
+  Mat.ext fun i j => by have := congrFun (congrFun h i) j; simpa using this
+
+theorem foldl_mul_eq_prod (f : Fin n → ℝ) (c : ℝ) :
+    Fin.foldl n (fun d j => d * f j) c = c * ∏ j : Fin n, f j := by
+  induction n with
+  | zero => simp
+  | succ n ih =>
+    rw [Fin.foldl_succ_last, Fin.prod_univ_castSucc, ih]
+    ring
+
+/-- `det` of the object = `pivsign · Π LU(j,j)` -/
+theorem det_eq_prod (s : State ℝ n n) :
+    det s = (s.pivsign : ℝ) * ∏ j : Fin n, s.lu.get j j := by
+  unfold det
+  simp only [dif_pos rfl, Fin.cast_eq_self, ScalarReal.ofInt_eq]
+  exact foldl_mul_eq_prod _ _
+
+theorem getL_lowerTriangular (s : State ℝ n n) : (toMatrix (getL s)).IsLowerTriangular := by
+  intro i j hij
+  have hij' : i.val < j.val := hij
+  simp only [toMatrix_apply, getL, Mat.get_ofFn]
+  rw [if_neg (by omega), if_neg (by omega)]
+  simp
+
+theorem getU_upperTriangular (s : State ℝ n n) : (toMatrix (getU (Nat.le_refl n) s)).IsUpperTriangular := by
+  intro i j hij
+  have hij' : j.val < i.val := hij
+  simp only [toMatrix_apply, getU, Mat.get_ofFn]
+  rw [if_neg (by omega)]
+  simp
+
+theorem det_getL (s : State ℝ n n) : (toMatrix (getL s)).det = 1 := by
+  rw [Matrix.det_of_isLowerTriangular _ (getL_lowerTriangular s)]
+  apply Finset.prod_eq_one
+  intro i _
+  simp [getL]
+
+theorem det_getU (s : State ℝ n n) : (toMatrix (getU (Nat.le_refl n) s)).det = ∏ j : Fin n, s.lu.get j j := by
+  rw [Matrix.det_of_isUpperTriangular (getU_upperTriangular s)]
+  apply Finset.prod_congr rfl
+  intro i _
+  simp [getU]
+
+/-- the factorisation as an equation between Mathlib matrices -/
+theorem factor_matrix (h : n ≤ m) (A : Mat ℝ m n) :
+    ∃ σ : Equiv.Perm (Fin m),
+      (∀ i : Fin m, (factor h A).piv[i.val]'i.isLt = σ i) ∧
+      (factor h A).pivsign = ((Equiv.Perm.sign σ : ℤˣ) : ℤ) ∧
+      (toMatrix A).submatrix σ id = toMatrix (getL (factor h A)) * toMatrix (getU h (factor h A)) := by
+  obtain ⟨σ, h1, h2⟩ := permInv_factor h A
+  refine ⟨σ, h1, h2, ?_⟩
+  rw [← toMatrix_matMul]
+  ext i j
+  have := factor_entries h A i j
+  simp only [permuteRows, Mat.get_ofFn] at this
+  simp only [Matrix.submatrix_apply, id_eq, toMatrix_apply, ← h1 i]
+  exact this
+
+/-- the determinant computed by the object is the determinant -/
+theorem det_factor (A : Mat ℝ n n) : det (factor (Nat.le_refl n) A) = (toMatrix A).det := by
+  obtain ⟨σ, _, h2, h3⟩ := factor_matrix (Nat.le_refl n) A
+  have hd := congrArg Matrix.det h3
+  rw [Matrix.det_permute, Matrix.det_mul, det_getL, det_getU, one_mul] at hd
+  rw [det_eq_prod, ← hd, h2, ← mul_assoc]
+  have : (((Equiv.Perm.sign σ : ℤˣ) : ℤ) : ℝ) * (((Equiv.Perm.sign σ : ℤˣ) : ℤ) : ℝ) = 1 := by
+    rcases Int.units_eq_one_or (Equiv.Perm.sign σ) with e | e <;> simp [e]
+  rw [this, one_mul]
+
+end Bridge
+
 end Bpp.LU
